@@ -5,6 +5,7 @@ import (
 	"encoding/json"
 	"fmt"
 	"os"
+	"strings"
 	"sync"
 	"syscall"
 	"testing"
@@ -52,12 +53,23 @@ func TestC06b(t *testing.T) {
 		}
 		rounds := rapid.IntRange(1, 3).Draw(rt, "rounds")
 		for round := 0; round < rounds; round++ {
-			how := rapid.SampledFrom([]string{"kill", "kill", "kill", "term", "int"}).Draw(rt, "how")
+			how := rapid.SampledFrom([]string{"kill", "kill", "journal", "journal", "term", "int"}).Draw(rt, "how")
+			// "journal": SIGKILL at the moment sqlite's rollback journal exists, i.e. in the middle of a store transaction
+			// (larger payloads and more clients make those moments longer); the restart has to roll that transaction back
+			if forced := os.Getenv("VERIF_C06B_HOW"); forced != "" {
+				how = forced
+			} else if n <= 4 && round == 0 {
+				how = "journal" // every run has some kills in the middle of a store transaction
+			}
+			nclients, pad := 3, ""
+			if how == "journal" {
+				nclients, pad = 200, strings.Repeat("x", 64*1024) // one store batch of these outgrows sqlite's page cache: pages reach the file before COMMIT
+			}
 			killAfter := time.Duration(rapid.IntRange(0, 500).Draw(rt, "killAfterMs")) * time.Millisecond
 			stop := make(chan struct{})
 			var wg sync.WaitGroup
 			inflight := 0
-			for c := 0; c < 3; c++ {
+			for c := 0; c < nclients; c++ {
 				wg.Add(1)
 				go func(c int) {
 					defer wg.Done()
@@ -78,7 +90,7 @@ func TestC06b(t *testing.T) {
 							if i%2 == 0 {
 								tags["resonate:invoke"] = "poll://g/w"
 							}
-							res := srv.PostJSON("/promises", map[string]any{"id": id, "timeout": far, "param": map[string]any{"data": []byte(id)}, "tags": tags}, nil)
+							res := srv.PostJSON("/promises", map[string]any{"id": id, "timeout": far, "param": map[string]any{"data": []byte(id), "headers": map[string]string{"pad": pad}}, "tags": tags}, nil)
 							if res.Code == 201 {
 								mu.Lock()
 								acks["promise:"+id] = ack{kind: "promise", id: id, data: id}
@@ -125,6 +137,30 @@ func TestC06b(t *testing.T) {
 			wasInflight := inflight
 			mu.Unlock()
 			switch how {
+			case "journal":
+				deadline := time.Now().Add(4 * time.Second)
+				seen := false
+				size0 := int64(-1)
+				for time.Now().Before(deadline) {
+					// the journal exists and the database file has grown since it appeared: pages of the open transaction
+					// are being written to the file (cache spill or COMMIT in progress)
+					if _, err := os.Stat(srv.DB + "-journal"); err == nil {
+						if fi, err := os.Stat(srv.DB); err == nil {
+							if size0 < 0 {
+								size0 = fi.Size()
+							} else if fi.Size()-size0 >= 1<<20 {
+								seen = true
+								break
+							}
+						}
+					} else {
+						size0 = -1
+					}
+					time.Sleep(50 * time.Microsecond)
+				}
+				srv.Kill()
+				stats.Class(fmt.Sprintf("killed-while-journal-exists=%v", seen))
+				how = "kill"
 			case "kill":
 				srv.Kill()
 			case "term":
@@ -175,6 +211,14 @@ func TestC06b(t *testing.T) {
 			sn, err := srv.Snapshot()
 			if err != nil {
 				fail("cannot read the database after restart: %v", err)
+			}
+			if db, err := sql.Open("sqlite3", "file:"+srv.DB+"?mode=ro&_busy_timeout=5000"); err == nil {
+				var res string
+				if err := db.QueryRow("PRAGMA integrity_check").Scan(&res); err != nil || res != "ok" {
+					db.Close()
+					fail("after %s and restart the database file does not pass sqlite's integrity check: %q %v", how, res, err)
+				}
+				db.Close()
 			}
 			for _, v := range sim.JudgeSnapshot(sn) {
 				fail("after %s and restart the stored state is torn: %s", how, v.Msg)
